@@ -17,7 +17,7 @@ HARNESS = lmmm.HARNESS
 
 
 def global_reads_samplerate(src):
-    """class predicate of finding S2: `samplerate` occurs in a top-level statement (outside every function body), i.e. the global
+    """class predicate of finding GS: `samplerate` occurs in a top-level statement (outside every function body), i.e. the global
     initialiser reads it"""
     out, depth, i = [], 0, 0
     txt = re.sub(r"//[^\n]*", "", src)
@@ -167,10 +167,10 @@ def run(ck):
                     if ox != oy:
                         t = next(i for i in range(max(len(ox), len(oy))) if i >= len(ox) or i >= len(oy) or ox[i] != oy[i])
                         bad = "sample %d after swaps at %s: uninterrupted %s, swapped %s" % (t, pts, ox[t] if t < len(ox) else None, oy[t] if t < len(oy) else None)
-            if bad and be == "wasm" and isinstance(ci, tuple) and ci[1] in special_sr and special_sr[ci[1]] != 44100 \
-                    and global_reads_samplerate(special[ci[1]]) and "S2" in findings:
-                bump("wasm_global_initialiser_at_default_rate_S2")
-                ck.known(findings["S2"], "device rate %d: %s" % (special_sr[ci[1]], special[ci[1]].replace("\n", " ")[:100]))
+            if bad and be == "vm" and isinstance(ci, tuple) and ci[1] in special_sr and special_sr[ci[1]] != 48000 \
+                    and global_reads_samplerate(special[ci[1]]) and "GS" in findings:
+                bump("vm_global_initialiser_before_device_rate_GS")
+                ck.known(findings["GS"], "device rate %d: %s" % (special_sr[ci[1]], special[ci[1]].replace("\n", " ")[:100]))
             elif bad:
                 viol.append(("%s: %s" % (be, bad), ci, pts, {}))
             else:
